@@ -456,7 +456,9 @@ def run_concur_job(job, scens, run_case, prop, files):
     preemptions, line granularity of `files`) of the ordinary single-case checks, each execution on a fresh process image"""
     from vf import concur
     acc = Acc(job)
-    scen = scens[job["idx"]]
+    scen = dict(scens[job["idx"]])
+    if not scen.get("post"):
+        scen["post"] = list(scen["threads"])       # the same calls once more, sequentially, after the threads have finished
     bound = 1 if job["tier"] == "quick" else 2
     hits = 2 if job["tier"] == "quick" else 3
     ex = concur.explore_cases(acc, run_case, prop, scen, files, bound, max_hits=hits)
